@@ -51,7 +51,8 @@ SHAPES_THOROUGH = {
 PATTERNS = [
     "own", "permuted-args", "repeated-arg-first", "repeated-arg-last", "same-name-first", "same-name-last",
     "same-name-derived", "own-parameter-names-swapped", "shared-ia-and-derived", "ia-variable", "unit-variable",
-    "unit-parameter", "locals-and-conditionals", "untranslatable",
+    "unit-parameter", "locals-and-conditionals", "untranslatable", "same-name-coinciding-specialisation",
+    "repeated-arg-same-specialisation",
 ]
 STATES = c07.STATES
 TIMES = c07.TIMES
@@ -108,6 +109,16 @@ def build_model(case):
         m.add_reaction("rs", F.with_local, args=["x1", "k1"], stoichiometry={"x1": -1})
         m.add_derived("s1", F.cond_rate, args=["x1", "k2"])
         m.add_reaction("rs2", F.power, args=["s1", "k1"], stoichiometry={"x1": -1})
+    elif p == "same-name-coinciding-specialisation":
+        # div2(a, b) = a / b and another div2(a, b) = b / a: with permuted arguments both specialise to x1 / k1
+        m.add_derived("s1", F.div2, args=["x1", "k1"])
+        m.add_derived("s2", F2.div2, args=["k1", "x1"])
+        m.add_reaction("rs", F.add2, args=["s1", "s2"], stoichiometry={"x1": -1})
+    elif p == "repeated-arg-same-specialisation":
+        # second(a, b) = b: used as (k1, x1) and as (x1, x1) it specialises to the same expression x1
+        m.add_derived("s1", F.second, args=["k1", "x1"])
+        m.add_derived("s2", F.second, args=["x1", "x1"])
+        m.add_reaction("rs", F.add2, args=["s1", "s2"], stoichiometry={"x1": -1})
     elif p == "untranslatable":
         m.add_reaction("rs", F.aug_fn, args=["x1", "k1"], stoichiometry={"x1": -1})
     return m
